@@ -658,10 +658,18 @@ void removeoverlaps(Rectangles& rs, const set<unsigned>& fixed, bool thirdPass) 
         for_each(cs.begin(),cs.end(),delete_object());
         for_each(vs.begin(),vs.end(),delete_object());
     } catch (char *str) {
+        Rectangle::setXBorder(xBorder);
+        Rectangle::setYBorder(yBorder);
         std::cerr<<str<<std::endl;
         for(Rectangles::iterator r=rs.begin();r!=rs.end();++r) {
             std::cerr << **r <<std::endl;
         }
+    } catch (...) {
+        // Don't leave the process-wide borders changed when the solver
+        // gives up (e.g., vpsc::UnsatisfiedConstraint).
+        Rectangle::setXBorder(xBorder);
+        Rectangle::setYBorder(yBorder);
+        throw;
     }
     COLA_ASSERT(noRectangleOverlaps(rs));
 }
